@@ -636,12 +636,19 @@ func TestVerifC20(t *testing.T) {
 			// the kernel's buffers are full now; 3000 small events more fill whatever queue the daemon itself keeps for
 			// the stalled subscriber (16 entries today; the scenario should not depend on that number), the reading
 			// subscribers being waited for after each one (their queues have the same length)
-			for k := 0; k < 3000; k++ {
+			missedInARow := 0
+			for k := 0; k < 3000 && missedInARow < 3; k++ {
 				name := fmt.Sprintf("tail-%d-%d", nSubs, k)
 				verifPublishSentinel(name)
 				for _, s := range subs {
 					if s.reads {
-						s.waitLast(func(e c20Event) bool { return e.AuthType == "verif-sentinel" && e.Username == name }, 2*time.Second)
+						if s.waitLast(func(e c20Event) bool { return e.AuthType == "verif-sentinel" && e.Username == name }, 2*time.Second) {
+							missedInARow = 0
+						} else {
+							// a reading subscriber that does not get these events is what the burst below is about to
+							// decide (by order); no point in pacing 3 000 events at 2 s each
+							missedInARow++
+						}
 					}
 				}
 			}
